@@ -96,26 +96,33 @@ def run(ck):
             _validate(ck, sw, "cover_b", sub, "a third of the transition cover, byte-wise reads, other frame variants",
                       "split=byte,variant=3", ck.seed)
 
-    def deferred():
+    def deferred(writers=False):
         # the asynchronous calls at callback granularity: completions of transport reads and writes are
         # steps of the schedule, so peer events and further calls land between the start of an
         # AsyncClose / AsyncWrite / reply flush and its completion
         consts = {"MaxPeer": 3, "MaxCalls": 3, "Partial": "TRUE", "MaxWriters": 1,
                   "PeerKinds": '{"ping", "closeValid", "closeInvalid", "viol", "eof"}' if quick else ALL_PEER_ASYNC,
                   "CallApis": ASYNC4 if quick else ASYNC6}
+        if writers:
+            # several application writes queued behind one in flight when a Close (local, echo of the
+            # peer's, 1002) is queued: data frames accepted before the Close must reach the wire before it
+            consts = {"MaxPeer": 1 if quick else 2, "MaxCalls": 3 if quick else 4, "Partial": "TRUE", "MaxWriters": 3,
+                      "PeerKinds": '{"closeValid", "viol"}' if quick else '{"ping", "closeValid", "viol"}',
+                      "CallApis": '{"AsyncNextFrame", "AsyncWrite", "AsyncClose"}'}
         cfg = vlib.cfg_with(sw, "WsAsyncImpl_mc.cfg", consts)
         r = vlib.tlc(sw, "WsAsyncImpl", cfg, workers=2 if quick else 4, timeout=3000, env={"JAVA_TOOL_OPTIONS": "-Xmx4g"})
         if not r.ok:
             raise vlib.Inconclusive("WsAsyncImpl cover: %s\n%s" % (r.violated or r.error, r.tail()))
-        ck.add_tlc("WsAsyncImpl transition cover (deferred completions)", r, consts)
+        ck.add_tlc("WsAsyncImpl transition cover (deferred completions%s)" % (", three writers" if writers else ""), r, consts)
         for line in r.lines('<<"MODELBAD"'):
             model_findings.add(line.split('"')[3])
-        beh = os.path.join(ck.work, "cover_deferred.jsonl")
+        beh = os.path.join(ck.work, "cover_deferred%s.jsonl" % ("_w" if writers else ""))
         n = vlib.edges_to_file(r, beh)
         os.remove(r.outpath)
         if n == 0:
             raise vlib.Inconclusive("deferred cover produced no behaviours")
-        _validate(ck, sw, "deferred", beh, "WsAsyncImpl transition cover %dx%d, deferred completions" % (consts["MaxPeer"], consts["MaxCalls"]),
+        _validate(ck, sw, "deferred_w" if writers else "deferred", beh,
+                  "WsAsyncImpl transition cover %dx%d, deferred completions%s" % (consts["MaxPeer"], consts["MaxCalls"], ", up to three writers" if writers else ""),
                   "split=frame", ck.seed, comp="wssession-deferred")
 
     def count():
@@ -152,7 +159,7 @@ def run(ck):
 
     with ThreadPoolExecutor(max_workers=6) as ex:
         # quick: the cover run is the exhaustive run (3x3); thorough adds the exhaustive 5x4 run
-        futs = [ex.submit(cover), ex.submit(deferred), ex.submit(bugdemo)] + ([] if quick else [ex.submit(count)]) + \
+        futs = [ex.submit(cover), ex.submit(deferred), ex.submit(deferred, True), ex.submit(bugdemo)] + ([] if quick else [ex.submit(count)]) + \
                [ex.submit(sim, k) for k in range(2 if quick else 3)]
         for f in futs:
             f.result()
